@@ -49,10 +49,11 @@ def build(reg):
     my = reg.module("gcmpy/motif_generators/cycle_motif.py")
     my.fn("cycle_motif", params={"vertices": LInt}, ret=LP, requires={"nonempty": "len(vertices) >= 1"},
           ensures={"len": "len(result) == len(vertices)", "consecutive": "forall(p, 0, len(vertices) - 1, result[p] == (vertices[p], vertices[p + 1]))",
-                   "closing": "result[len(vertices) - 1] == (vertices[0], vertices[len(vertices) - 1])", "input_unchanged": "vertices == old(vertices)"})
+                   "closing": "result[len(vertices) - 1] == (vertices[0], vertices[len(vertices) - 1]) or result[len(vertices) - 1] == (vertices[len(vertices) - 1], vertices[0])",      # an undirected edge: either orientation
+                   "input_unchanged": "vertices == old(vertices)"})
     md = reg.module("gcmpy/motif_generators/diamond_motif.py")
     md.fn("diamond_motif", params={"vertices": LInt}, ret=LP, requires={"four": "len(vertices) == 4"},
-          ensures={"len": "len(result) == 6", "cycle": "forall(p, 0, 3, result[p] == (vertices[p], vertices[p + 1])) and result[3] == (vertices[0], vertices[3])",
+          ensures={"len": "len(result) == 6", "cycle": "forall(p, 0, 3, result[p] == (vertices[p], vertices[p + 1])) and (result[3] == (vertices[0], vertices[3]) or result[3] == (vertices[3], vertices[0]))",
                    "chords": "result[4] == (vertices[0], vertices[2]) and result[5] == (vertices[1], vertices[3])"})
     mg = reg.module("gcmpy/gcm_algorithm/gcm_algorithm.py")
     mg.cls("GCMAlgorithm", fields={"_motif_sizes": LInt})
